@@ -179,6 +179,11 @@ func cmdCheck(args []string) int {
 	for _, l := range prop.Lemmas {
 		run.results = append(run.results, eng.verifyLemma(l))
 	}
+	timeout0 := 25
+	if tier == "thorough" {
+		timeout0 = 90
+	}
+	run.adaptRenames(eng, gen, timeout0)
 	// generous budgets: obligations are decided in well under a second as a
 	// rule; the budget only matters for the few heavy ones, and running out
 	// of it on an unchanged tree would be a false alarm
